@@ -349,7 +349,7 @@ func (w *c10W) check(enc Encoding, ss []c10S, o c10Opts) (fail *c10Fail, bytes [
 	if o.seekKs != nil {
 		ks := o.seekKs
 		if len(ks) == 1 && ks[0] == -1 {
-			ks = ks[:0]
+			ks = nil
 			for k := 0; k <= len(ss); k++ {
 				ks = append(ks, k)
 			}
@@ -452,7 +452,7 @@ var (
 )
 
 func c10ShortAlpha(enc Encoding, level int) *c10Alpha {
-	// level 0: reduced (long sequences), 1: quick full, 2: thorough full
+	// level 0: reduced (4-5 samples), 1: quick full, 2: thorough full, 3: tiny (longest sequences)
 	a := &c10Alpha{}
 	dods := c10DodXOR2
 	if enc == EncXOR {
@@ -476,17 +476,26 @@ func c10ShortAlpha(enc Encoding, level int) *c10Alpha {
 			a.dod = dods[:17]
 		}
 		a.v0 = []uint64{c10One, c10Stale, 1 << 63, 1}
-		a.v = c10VAll[:6]
+		a.v = c10VAll[:5]
 		a.st0 = []c10STAtom{{'z', 0}, {'r', 5}, {'a', math.MinInt64}}
-		a.st1 = []c10STAtom{{'s', 0}, {'z', 0}, {'j', 1}, {'j', 5}, {'j', -256}, {'a', math.MaxInt64}}
+		a.st1 = []c10STAtom{{'s', 0}, {'z', 0}, {'j', 1}, {'j', -256}, {'a', math.MaxInt64}}
 		a.st = []c10STAtom{{'s', 0}, {'z', 0}, {'j', 0}, {'j', 1}, {'j', -4}, {'j', 33}, {'j', 257}, {'a', math.MaxInt64}}
+	case 3:
+		a.t0 = []int64{0, -c10MaxT}
+		a.d1 = []int64{600000, 1 << 41}
+		a.dod = []int64{0, dods[4], -(1 << 40)}
+		a.v0 = []uint64{c10One}
+		a.v = []uint64{c10One, c10Two, c10Stale}
+		a.st0 = []c10STAtom{{'z', 0}, {'r', 5}}
+		a.st1 = []c10STAtom{{'s', 0}, {'j', 33}}
+		a.st = []c10STAtom{{'s', 0}, {'j', 1}, {'z', 0}}
 	default:
-		a.t0 = []int64{0, -c10MaxT, 1700000000000, c10MaxT - (1 << 42), -1}
+		a.t0 = []int64{0, -c10MaxT, 1700000000000, c10MaxT - (1 << 42)}
 		a.d1 = []int64{1, 1000, 600000, 1 << 41, 15000}
 		a.dod = dods
-		a.v0 = []uint64{c10One, c10Stale, 1 << 63, 1, 0xfff8000000000abc}
+		a.v0 = []uint64{c10One, c10Stale, 1 << 63, 1}
 		a.v = c10VAll[:9]
-		a.st0 = []c10STAtom{{'z', 0}, {'r', 5}, {'a', math.MinInt64}, {'r', 0}}
+		a.st0 = []c10STAtom{{'z', 0}, {'r', 5}, {'a', math.MinInt64}}
 		a.st1 = []c10STAtom{{'s', 0}, {'z', 0}, {'j', 1}, {'j', 5}, {'j', -256}, {'a', math.MaxInt64}, {'j', -3}, {'j', 2049}}
 		a.st = c10STEdges[:16]
 	}
@@ -572,7 +581,7 @@ func c10DodPart(enc Encoding, thorough bool) c10Part {
 			dods = c10Range(-e-8, -e+8, dods)
 		}
 	}
-	dods = append(dods, 1<<40, -(1 << 40), math.MaxInt64-2*c10Base) // 64-bit escapes (delta stays positive)
+	dods = append(dods, 1<<40, -(1 << 40), 1<<61) // 64-bit escapes
 	nST := 3
 	if enc == EncXOR {
 		nST = 1
@@ -872,13 +881,22 @@ func c10Parts(r *vx.Run) []c10Part {
 		for n := 1; n <= vx.Pick(r, 4, 5); n++ {
 			ps = append(ps, c10SeekPart(enc, n))
 		}
-		full := vx.Pick(r, 1, 2)
-		for n := 1; n <= 3; n++ {
-			ps = append(ps, c10ShortPart(enc, n, full, vx.Pick[int64](r, 1, 16)))
-		}
-		ps = append(ps, c10ShortPart(enc, 4, 0, vx.Pick[int64](r, 1, 16)))
-		if th {
-			ps = append(ps, c10ShortPart(enc, 5, 0, 64))
+		if enc == EncXOR {
+			for n := 1; n <= 3; n++ {
+				ps = append(ps, c10ShortPart(enc, n, 2, 1))
+			}
+			ps = append(ps, c10ShortPart(enc, 4, vx.Pick(r, 0, 1), vx.Pick[int64](r, 1, 16)), c10ShortPart(enc, 5, 0, 1))
+			if th {
+				ps = append(ps, c10ShortPart(enc, 6, 0, 16))
+			}
+		} else {
+			for n := 1; n <= 3; n++ {
+				ps = append(ps, c10ShortPart(enc, n, vx.Pick(r, 1, 2), vx.Pick[int64](r, 1, 16)))
+			}
+			ps = append(ps, c10ShortPart(enc, 4, 0, 1))
+			if th {
+				ps = append(ps, c10ShortPart(enc, 5, 3, 16))
+			}
 		}
 		ps = append(ps, c10DodPart(enc, false))
 		if th {
@@ -913,6 +931,7 @@ func c10RunCase(r *vx.Run, p *c10Part, i int64) (ok bool, h uint64, outcome stri
 	pn, stack := vx.Guard(func() {
 		var o c10Opts
 		enc, ss, o, valid = p.gen(w, i)
+		valid = valid && c10InStatement(ss)
 		if valid {
 			fail, bytes = w.check(enc, ss, o)
 		}
@@ -946,6 +965,16 @@ func c10RunCase(r *vx.Run, p *c10Part, i int64) (ok bool, h uint64, outcome stri
 		lb = 64 + lb/64*64
 	}
 	return true, hh.Sum64(), fmt.Sprintf("%s n=%d bytes=%d sthdr=%02x", c10EncName(enc), len(ss), lb, stHdr)
+}
+
+// c10InStatement: the statement quantifies over strictly increasing timestamps within +-2^62.
+func c10InStatement(ss []c10S) bool {
+	for i, s := range ss {
+		if s.T > c10MaxT || s.T < -c10MaxT || (i > 0 && s.T <= ss[i-1].T) {
+			return false
+		}
+	}
+	return len(ss) > 0
 }
 
 func c10Desc(ss []c10S) string {
